@@ -296,9 +296,11 @@ def labels_and_copy(ctx, obs, q):
         if rows.o == _order.SORTED:
             obs.ok('ALIGN', q, con, 'average_dataset_by returns sorted order', where(prog, f, c.node))
             continue
-        akey = c.arg(1) or frozenset()
-        good = [s for s in sorts if not s.in_loops and s.node.args and params_of(s.arg(0) or frozenset()) == params_of(akey)
-                and params_of(akey)]
+        from ..rules.common import Inliner as _Inl
+        _inl = _Inl(r, None, tuple(f.params))
+        akey_e = ast.dump(_inl.inline(c.node.args[1])) if len(c.node.args) > 1 else None
+        good = [s for s in sorts if not s.in_loops and s.node.args and akey_e is not None
+                and ast.dump(_inl.inline(s.node.args[0])) == akey_e]
         if good:
             obs.ok('ALIGN', q, con, f'`{norm(good[0].node)}` precedes the fold loop', where(prog, f, c.node))
         elif sorts:
